@@ -18,6 +18,8 @@ def run(ctx, R, tier):
     from .c02 import nested_slices
     R.floor('B.C13.slice', nested_slices(F, R, rule='B.C13.slice'), 1)
     linear(F, R)
+    from .c06 import defaults_match
+    defaults_match(F, R, rule='B.C13.defaults')
     from ..enginea import run_engine_a
     run_engine_a(R, F, groups=('rt',), effects=('panic',), loops=False, rule_prefix='A', fn_filter=lambda fn: 'effect::' in fn,
                  singular=True, singular_floor=32)
